@@ -41,6 +41,9 @@ def _nm(exe):
     _NM[exe] = syms
     return syms
 
+class NativeCrash(Exception):
+    def __init__(s, cmd, rc, err): Exception.__init__(s, 'native run killed by signal %d: %s' % (-rc, ' '.join(cmd[-8:]))); s.cmd = cmd; s.rc = rc; s.err = err
+
 def take_snapshot(bld, tag, args, timeout=120):
     """run the native harness: writes <dir>/<tag>.bin/.meta (+ .out reference) and returns (Snapshot, roots, prefix)"""
     prefix = os.path.join(bld['dir'], 'snap-' + tag)
@@ -51,6 +54,8 @@ def take_snapshot(bld, tag, args, timeout=120):
             if not os.path.exists(prefix + '.meta'):
                 tmp = prefix + '.p%d' % os.getpid()
                 r = subprocess.run([bld['exe'], 'snap', tmp] + [str(a) for a in args], capture_output=True, text=True, timeout=timeout)
+                if r.returncode < 0:      # the real code died of a signal while the harness built its world / made its reference calls natively
+                    raise NativeCrash([bld['exe'], 'snap', tmp] + [str(a) for a in args], r.returncode, (r.stderr or '')[-300:])
                 if r.returncode != 0:
                     raise RuntimeError('harness snap failed (%s %s): rc=%d %s %s' % (bld['exe'], args, r.returncode, r.stdout[-2000:], r.stderr[-2000:]))
                 for ext in ('.calib', '.bin', '.out', '.meta'):
@@ -211,6 +216,10 @@ def _job_wrapper(a):
     signal.signal(signal.SIGALRM, on_alarm); signal.alarm(int(budget))
     try:
         fn(res, *args)
+    except NativeCrash as e:
+        # not a machinery error: the real code, linked into the harness and driven with the harness' (legal) scenario, crashed natively
+        res.obs.append(Ob('%s%r: the real code runs the scenario natively (world construction and reference calls of the harness) without dying of a signal' % (fn.__name__, tuple(args)), 'violated', key='native-crash',
+                          detail=str(e), cex={'replay': 'native-crash', 'cmd': e.cmd, 'signal': -e.rc}))
     except Exception as e:
         res.error = '%s: %s' % (type(e).__name__, e)
         res.log.append(traceback.format_exc()[-3000:])
@@ -252,7 +261,15 @@ class Check:
             path = os.path.join(OUT, self.pid, 'cex-%03d.json' % i)
             json.dump({'property': self.pid, 'obligation': o.name, 'key': o.key, 'cex': o.cex}, open(path, 'w'), indent=1, default=str)
             rep, txt = (True, 'no native replay for this obligation class (structural); counterexample is the listed term pair')
-            if self.replayer and o.cex is not None and isinstance(o.cex, dict) and o.cex.get('replay'):
+            if isinstance(o.cex, dict) and o.cex.get('replay') == 'native-crash':
+                try:
+                    r_ = subprocess.run(o.cex['cmd'], capture_output=True, text=True, timeout=300); rep = r_.returncode < 0
+                    txt = 'native re-run of the harness scenario: %s' % ('killed by signal %d again' % -r_.returncode if rep else 'exit status %d this time' % r_.returncode)
+                    for ext in ('.calib', '.bin', '.out', '.meta'):
+                        try: os.unlink(o.cex['cmd'][2] + ext)
+                        except OSError: pass
+                except Exception as e: rep, txt = False, 'replay crashed: %r' % e
+            elif self.replayer and o.cex is not None and isinstance(o.cex, dict) and o.cex.get('replay'):
                 try: rep, txt = self.replayer(path, o.cex)
                 except Exception as e: rep, txt = False, 'replay crashed: %r' % e
             o.replay = txt
